@@ -598,6 +598,17 @@ def manifestsEnum (rels : List Bytes) : List (Name × Bytes) :=
     | some p => some (n, p)
     | none => none
 
+/-- the manifest file a name-taking HTTP handler goes on to open / write / remove for the resolved name `r`:
+    `GetModel(r.String())` = `ParseModelPath` → `GetManifestPath` (`ParseNamedManifest(r)` / `WriteManifest(r)` / `CopyModel` use
+    `manifests/<r.Filepath()>`: the same path, `C13.handler_paths_agree`) -/
+def handlerManifestPath (root : Bytes) (r : Name) : Option Bytes := mpManifestPath root (parseModelPath (toStr r))
+
+/-- the parse step of every name-taking handler on a request string (`none` = refused with "invalid model name" / 404 before
+    the store is touched), with the lookup `getExistingName` as the identity (a store that holds no such name) -/
+def handlerName (root s : Bytes) : Option Bytes :=
+  let n := parseName s
+  if isFQM n then handlerManifestPath root n else none
+
 /-- the guard of `server.CopyModel(src, dst)`: both names must be fully qualified before any path is derived
     (`false` = `model.Unqualified`, nothing is touched) -/
 def copyAccepted (src dst : Name) : Bool := isFQM dst && isFQM src
